@@ -1,6 +1,7 @@
 import CookModel.Lemmas.TextLaws
 import CookModel.Syntax.Blocks
 import CookModel.Lemmas.Blocks
+import CookModel.Lemmas.CoverEvents
 /-
   C05  No recipe content is silently dropped.
 
@@ -115,11 +116,57 @@ theorem C05_lexed_tokens_reach_a_block (cs : CharSpec) (off : Nat) (s : List Cha
     exact hc ⟨b, hb, htb⟩
   rw [h this] at hk; cases hk
 
+/-- **A text run covers its tokens (spans, not only characters).**  For every run of adjacent
+    tokens (`Chain off ts`: each starts where the previous one ends, as the lexer produces them;
+    escaped tokens start with the backslash), `BlockParser::text` puts every token that is not a
+    comment and has a non-empty body (`HasBody`; the body of an escape `\x` is `x`, of every other
+    token the whole token) inside one fragment, hence inside `Text::span()`; in particular the text
+    is then not empty, so the event is pushed.  Only comments (and the backslash of an escape) can
+    lie outside the span. -/
+theorem C05_text_run_covers (off : Nat) (ts : List Tok) (h : Chain off ts) (he : EscapedOK ts)
+    (u : Tok) (hu : u ∈ ts) (hb : HasBody u) :
+    (∃ f ∈ (buildText off ts).frags, f.offset ≤ tokBodyStart u ∧ u.stop ≤ f.stop) ∧
+    (buildText off ts).span.start ≤ tokBodyStart u ∧ u.stop ≤ (buildText off ts).span.stop ∧
+    (buildText off ts).frags ≠ [] :=
+  ⟨cov_buildText off ts h he u hu hb, cov_buildText_span off ts h he u hu hb⟩
+
+/-- **Event-level conservation, text-only steps (partial).**  `CoveredBy evs t`: the body of token
+    `t` lies inside the source span of some content event of the queue `evs`.  For every block of
+    adjacent tokens (`WF`) that has no component marker token (`@ # ~`), does not start with `>>`,
+    `=` or `>` and is not blank — i.e. a step made of text only, possibly over several lines, with
+    comments, escapes and any punctuation — `BlockParser` (`parse_block` + `finish`, model
+    `runBlock`) emits events such that EVERY token of the block that is not a comment (words,
+    numbers, punctuation, whitespace, line breaks, bodies of escapes) is covered by a `Text` event,
+    for every extension set and every previous queue; no hypothesis about error events is needed
+    (such a block emits none).
+    MISSING for the clause of DESIGN.md §6 C05: metadata lines and section lines (the key/value
+    and name runs are covered by `C05_text_run_covers`; what is not yet proved is the Hoare pass
+    over `metadata_entry`/`section` that ties them to the pushed event and accounts for `>>`, `:`,
+    `=`), text blocks (`>`), and steps with components (needs the exact event span
+    `[offset before the marker, offset after the body/note]`, which `SpansEv.lean` only bounds from
+    one side), and the lift from blocks to the whole input (`C05_lexed_tokens_reach_a_block`). -/
+theorem C05_events_cover_partial {α : Type} [Arith α] (cs : CharSpec) (ext : Ext) (oldStyle : Bool)
+    (b : List Tok) (evs : Array (Ev α)) (hw : WF b) (hnm : NoMarkerTok b)
+    (hhead : ∀ t, b.head? = some t → t.kind ≠ .metaStart ∧ t.kind ≠ .eq ∧ t.kind ≠ .textStep)
+    (hnb : b.all (fun t => isEmptyTok t.kind) = false)
+    (t : Tok) (ht : t ∈ b) (hb : HasBody t) :
+    CoveredBy (runBlock cs ext oldStyle b evs none).1 t :=
+  runBlock_step_cover cs ext oldStyle b evs hw hnm hhead hnb t ht hb
+
 /-! non-vacuity: a stream with a leading blank line, a step, a blank line (dropped), a `>>` line
     directly followed by a step line without newline at the end -/
 example : allBlocks 11 [⟨.ws, [' '], 0⟩, ⟨.newline, ['\n'], 1⟩, ⟨.word, ['a'], 2⟩, ⟨.newline, ['\n'], 3⟩,
       ⟨.lineComment, "--c".toList, 4⟩, ⟨.newline, ['\n'], 7⟩,
       ⟨.metaStart, ['>', '>'], 8⟩, ⟨.word, ['k'], 10⟩, ⟨.newline, ['\n'], 11⟩, ⟨.word, ['b'], 12⟩] =
     [[⟨.word, ['a'], 2⟩], [⟨.metaStart, ['>', '>'], 8⟩, ⟨.word, ['k'], 10⟩], [⟨.word, ['b'], 12⟩]] := by decide
+
+/-! non-vacuity for the coverage theorems: the block `a [-c-] b` (word, blank, comment, blank, word)
+    satisfies the hypotheses; the word `b` has a body, the comment has none -/
+example : WF [⟨.word, ['a'], 0⟩, ⟨.ws, [' '], 1⟩, ⟨.blockComment, "[-c-]".toList, 2⟩, ⟨.ws, [' '], 7⟩, ⟨.word, ['b'], 8⟩] :=
+  ⟨by simp, ⟨by simp [baseOff, Chain, Tok.stop, utf8Len]; decide, by intro t ht hk; simp at ht; rcases ht with rfl | rfl | rfl | rfl | rfl <;> simp at hk⟩⟩
+example : HasBody ⟨.word, ['b'], 8⟩ := ⟨by simp, by simp, by simp [tokBodyStart, Tok.stop, utf8Len]; decide⟩
+example : ¬ HasBody ⟨.blockComment, "[-c-]".toList, 2⟩ := fun h => h.2.1 rfl
+example : NoMarkerTok [⟨.word, ['a'], 0⟩, ⟨.ws, [' '], 1⟩, ⟨.word, ['b'], 2⟩] := by
+  intro t ht; simp at ht; rcases ht with rfl | rfl | rfl <;> rfl
 
 end Cook
